@@ -14,6 +14,21 @@ CHECKS = {
    text="C01 is a decidable monitor over observable traces (Props/C01.lean); theorem C01.holds proves every run of the model of Processor.Process is accepted, for every configuration, callback behaviour and packet list of any length; corollaries at_most_one_dial, dial_only_when_authorized, relay_only_when_open, after_stop_inert, out_of_phase_never_success. The model is tied to the code by running the real packet loop over scripted transports with loopback hosts on generated and exhaustively enumerated packet histories and comparing traces with the model; the same monitor is evaluated on every implementation trace.",
    design="6/C01",
    note="Not modelled: the transports themselves (scripted in the hook tier), TCP dial timing, callbacks (parameters of the theorem). Dial failures are not observable and are compared through the response only."),
+ "C08": dict(
+   technique="Lean 4 refinement theorem (incremental reader = segmentation-free stream parser, induction over reads) + differential correspondence with the real Tunnel.Read loop and packet loop under exhaustive one/two-cut and random segmentations",
+   text="Theorems reader_refines_stream, segmentation_independent, stream_of_packets, packets_of_any_segmentation, bad_length_ends, incomplete_ends, same_effects (Props/C08.lean) hold for every list of transport reads of any length; the pinned one-shot algorithm is refuted by closed witnesses (legacy_*), which is defect D1/D2, repaired by a fix: commit. The model is tied to the code by running the real Tunnel.Read loop (and the whole packet loop for same_effects) over scripted transports with exact read boundaries; the property itself (same packets as for the unsegmented stream) is also evaluated on the implementation directly.",
+   design="6/C08",
+   note="Not modelled: the websocket and chunked-HTTP transports below ReadPacket (each delivers some segmentation of the byte stream, which is what the theorem quantifies over); leftover-byte count at EOF is not observable and compared by kind only."),
+ "C16": dict(
+   technique="Lean 4 theorems about the response builders against an independent MS-TSGU decoder (literal constants) + decoding every implementation response with that decoder + byte-exact model tie",
+   text="wire_decodes (every response decodes, header length = bytes, exactly the masked fields, nothing left over), status_zero_iff_accepted and type match over Tunnel.step, codes (regenerated Go constants = MS-TSGU literals), redirect_iff_enabled / redirect_all_flags over all 2^7 switch settings, idle_timeout, data_packet_wellformed (Props/C16.lean). Tie: responses captured from the real packet loop for all 128 switch combinations × idle values × capability settings × outcomes are decoded by the Lean decoder and checked against the property, and compared byte for byte with the model.",
+   design="6/C16",
+   note="The close-channel response layout is the gateway's own (as channel response). Constants are regenerated from the Go source on every run; a changed constant breaks theorem `codes`."),
+ "C17": dict(
+   technique="Lean 4 theorem for every client value (Nat.testBit reasoning, no enumeration) + exhaustive differential run of the real handshake path",
+   text="handshake_iff (success iff both sets empty or a common bit, for all four server settings and every client value), success_advertises, failure_mismatch_and_end, no_mechanism_refused_under_token_auth, serverCaps_bits (Props/C17.lean). Tie: the real Processor.Process is run on handshake packets for every server setting × client values (quick: all values with ≤ 2 bits + 2000 random; thorough: all 65536) and compared with the model and with the rule itself.",
+   design="6/C17",
+   note="Only the handshake step of the packet loop is exercised here; its composition with later steps is C01's."),
 }
 
 def entry(pid, c):
